@@ -92,6 +92,18 @@ def build_pool(ctx, scratch):
             ctx.count('local_table_pairs_in_pool')
         except (R.Unsupported, KeyError):
             pass
+    # identifications just outside what is bundled: the decoder falls back (version 33 / <centre>_0), the encoder refuses -
+    # whatever was decoded before
+    for meta in (dict(master_table_version=42), dict(master_table_version=33, originating_centre=98, originating_subcentre=5,
+                                                     local_table_version=1)):
+        try:
+            B, D = R.load_tables(0, meta.get('originating_centre', 0), meta.get('originating_subcentre', 0),
+                                 meta['master_table_version'], meta.get('local_table_version', 0))
+            msg = R.build_message([1001, 12001, 101002, 4024], B, D, R.Policy(rng), 1, False, 4, dict(meta, update_sequence_number=len(pool)))
+            pool.append(('unbundled-%d' % len(pool), msg.bytes, None))
+            ctx.count('unbundled_identification_messages_in_pool')
+        except Exception:
+            pass
     # every shard covers all versions across its histories: messages over many versions
     for v in versions:
         if len(pool) >= n * 2 // 3:
@@ -156,6 +168,17 @@ def fresh_golden(ctx, pool, scratch):
         if 'error' in g:
             ctx.count('golden_decode_error')
             continue
+        # the encode golden comes from an interpreter that has not decoded anything (not even this message)
+        try:
+            jf = os.path.join(scratch, 'm%d.json' % i)
+            with open(jf, 'w') as f:
+                f.write(g['flat_json'])
+            p2 = subprocess.run([sys.executable, '-m', 'mon.digest', '--encode', jf] + ([root] if root else []), capture_output=True,
+                                timeout=120, env=env, cwd=os.environ.get('VERIF_DIR', '/verif'))
+            g['encode'] = json.loads(p2.stdout.decode())['encode']
+            ctx.count('encode_goldens_from_fresh_interpreters')
+        except Exception as e:
+            ctx.notes.append('encode golden failed for %s: %r' % (name, e))
         ctx.count('golden_from_fresh_interpreters')
         gold[i] = g
     return gold
